@@ -65,6 +65,9 @@ TRUSTED = [
     "interleaving that really happened to the model",
     "ghost predicates `settled` (all strict descendants exited) and `late` (write into / on behalf of an exited context) define when the "
     "outer-span statement applies; the oracle recomputes both from observed dict identities, independently of the model",
+    "stream stored_timings: the metrics store behind SamplePostprocessor is a recording stand-in (put_value_cluster_level / flush); the "
+    "samples are the real Sample objects of a real AsyncExecutor run with a real track.Task substituted for the executor's task stand-in; "
+    "the ThroughputCalculator part of the postprocessor is exercised, not modelled",
 ]
 ASSUMPTIONS = [
     "perf_counter is monotone (non-decreasing) within one process",
@@ -928,7 +931,7 @@ def gen_clients(ctx):
         yield {"clients": [gen_client(rng, i, rng.choice([1, 2, 2, 3])) for i in range(rng.choice([2, 2, 3, 4]))]}
 
 
-def exec_clients(clients, stack=None):
+def exec_clients(clients, stack=None, start_timestamp=0, post=None):
     """AsyncIoAdapter.run in miniature: one real AsyncExecutor per client, started with gather from a task in which
     the request-context variable is unset.  stack=None: the fake endpoint on the virtual-time loop; stack=RealStack: the real
     client stack (EsClientFactory.create_async -> RallyAsyncElasticsearch -> aiohttp with the real trace hooks) against a scripted
@@ -946,7 +949,7 @@ def exec_clients(clients, stack=None):
             raw_deps.append(copy.deepcopy(dep))
             return super().add(*a, **kw)
 
-    sampler = RecSampler(start_timestamp=0)
+    sampler = RecSampler(start_timestamp=start_timestamp)
     ess = {}
 
     class Sched:
@@ -1015,7 +1018,10 @@ def exec_clients(clients, stack=None):
         if stack is None:
             return rec, {"exception": failure}
     samples = []
-    for s, raw in zip(sampler.samples, raw_deps):
+    objs = sampler.samples
+    if post is not None:
+        post(copy.deepcopy(objs))       # `Sample.dependent_timings` consumes the records (`t.pop`): hand out copies
+    for s, raw in zip(objs, raw_deps):
         rawl = None
         if raw is not None:
             rawl = []
@@ -2170,6 +2176,149 @@ def translate(repo_root):
     return {"registered": rows, "endOnFailure": eof}
 
 
+# ---------------------------------------------------------------------------------------------------------
+# stream: stored_timings — RequestTiming's record -> Sample.dependent_timings -> SamplePostprocessor -> metrics store
+# ---------------------------------------------------------------------------------------------------------
+CLS_STORED = "stored-sub-request-timing"
+
+
+def gen_stored(ctx):
+    rng = ctx.rng
+
+    def blank(items):
+        for it in items:
+            if "stream" in it:
+                blank(it["stream"])
+            elif rng.random() < 0.15:
+                it["name"] = ""            # a falsy name: the task's operation name is stored instead
+
+    for _ in range(ctx.budget):
+        clients = [gen_client(rng, i, rng.choice([1, 2, 3])) for i in range(rng.choice([1, 1, 2, 3]))]
+        for cl in clients:
+            for r in cl["requests"]:
+                if r["type"] == "composite":
+                    blank(r["params"]["requests"])
+        yield {"clients": clients, "factor": rng.choice([1, 1, 1, 2, 3, 4]), "task_start": rng.choice([0, 0, 0.1, 1.75, 1000000.3, -2.5])}
+
+
+def run_stored(ctx, case):
+    """the real SamplePostprocessor (recording metrics store) on the real Samples a real AsyncExecutor / Composite /
+    RequestTiming produced; model: records rebuilt from the context values (mkRec) -> postprocess; oracle: wire log"""
+    mods = _mods()
+    driver = mods["driver"]
+    from esrally import track as rtrack
+    clients, factor, ts = case["clients"], case["factor"], case["task_start"]
+    stored = {"docs": [], "error": None, "objs": None}
+
+    class Store:
+        def put_value_cluster_level(self, **kw):
+            stored["docs"].append(kw)
+
+        def flush(self, refresh=True):
+            pass
+
+    def post(objs):
+        tasks = {}
+        for o in objs:
+            cid = o.client_id
+            if cid not in tasks:
+                tasks[cid] = rtrack.Task(f"task{cid}", rtrack.Operation(f"task{cid}", "composite", params={}))
+            o.task = tasks[cid]
+        stored["objs"] = [{"client": o.client_id, "abs": q(o.absolute_time), "start": q(o.request_start), "svc": q(o.service_time),
+                           "deps": None if o._dependent_timing is None else [
+                               {k: (t or {}).get("dependent_timing", {}).get(k) for k in ("operation", "operation-type", "absolute_time", "request_start", "request_end")}
+                               for t in o._dependent_timing]} for o in objs]
+        saved = _Clock.fn
+        _Clock.fn = lambda: 0.0          # the postprocessor only measures how long it takes itself
+        try:
+            driver.SamplePostprocessor(Store(), factor, {}, {})(objs)
+        except Exception as ex:
+            stored["error"] = type(ex).__name__
+        finally:
+            _Clock.fn = saved
+
+    rec, samples = exec_clients(copy.deepcopy(clients), start_timestamp=ts, post=post)
+    if isinstance(samples, dict) or stored["objs"] is None:
+        ctx.diff("stored: the code under test raised", "no exception", samples)
+        ctx.sig(["exception"], nontrivial=False)
+        return
+    svc_docs = [d for d in stored["docs"] if d["name"] == "service_time"]
+    got = [{"client": d["meta_data"].get("client_id"), "operation": d["operation"], "type": d["operation_type"], "value": q(d["value"]),
+            "abs": q(d["absolute_time"]), "rel": q(d["relative_time"])} for d in svc_docs]
+    # (1) model
+    margs = {"factor": factor, "samples": [
+        {"client": o["client"], "task_start": q(ts), "task_op": f"task{o['client']}", "task_type": "composite", "abs": o["abs"], "start": o["start"], "svc": o["svc"],
+         "deps": None if o["deps"] is None else [{"name": t["operation"], "type": t["operation-type"], "abs": q(t["absolute_time"]), "start": q(t["request_start"]),
+                                                   "end": q(t["request_end"])} for t in o["deps"]]} for o in stored["objs"]]}
+    m = ctx.model("subtimings", "store", margs)
+    if "err" in m:
+        ctx.diff("stored: the model raises", m, [stored["error"], got])
+    else:
+        exp = [{k: d[k] for k in ("client", "operation", "type", "value", "abs", "rel")} for d in m["r"]]
+        if exp != got or stored["error"] is not None:
+            ctx.diff("stored: service_time documents in the metrics store", exp, [stored["error"], got])
+    # (2) direct oracle, from the case and the endpoint's wire log only: every kept sample stores its own document followed by one
+    # document per executed sub-request: that sub-request's own name / type (the task's when it has none), (its last end - its first
+    # start) in ms, its first start relative to the task's start
+    n = len(rec.mgrs)
+    client_tasks = [e["task"] for e in rec.events if e["k"] == "client"]
+    per_client = {cl["id"]: [] for cl in clients}
+    for cl, t in zip(clients, client_tasks):
+        tops = [c for c in range(n) if rec.parent[c] is None and rec.opener[c] == t]
+        for r, c in zip(cl["requests"], tops):
+            per_client[cl["id"]].append((r, c, t))
+    seen = {cl["id"]: 0 for cl in clients}
+    pos = 0
+    nsub = 0
+    bad = False
+    for idx, s in enumerate(samples):
+        cid = s["client"]
+        if seen[cid] >= len(per_client[cid]):
+            bad = True
+            break
+        r, c, t = per_client[cid][seen[cid]]
+        seen[cid] += 1
+        if idx % factor != 0:
+            continue
+        exp_sub = []
+        if r["type"] == "composite" and s["success"]:
+            cut = rec.close_idx.get(c, len(rec.events))
+            try:
+                octx = map_ops(rec, t, c, r["params"]["requests"])
+            except StructureMismatch:
+                octx = None
+            if octx is None:
+                bad = True
+                break
+            for op, d in zip(flat_ops(r["params"]["requests"]), octx):
+                ws = [w for w in rec.wires if w["cur"] == d and w["idx"] < cut]
+                st = min((w["t"] for w in ws if w["start"]), default=None)
+                en = max((w["t"] for w in ws if not w["start"]), default=None)
+                if st is None or en is None:
+                    bad = True
+                    break
+                sv = float(en) - float(st)
+                exp_sub.append({"client": cid, "operation": op.get("name") or f"task{cid}", "type": op["operation-type"],
+                                "value": q(sv * 1000 if sv else sv), "rel": q(float(st) - ts)})
+            if bad:
+                break
+        own = got[pos] if pos < len(got) else None
+        mine = [{k: d[k] for k in ("client", "operation", "type", "value", "rel")} for d in got[pos + 1: pos + 1 + len(exp_sub)]]
+        pos += 1 + len(exp_sub)
+        nsub += len(exp_sub)
+        key = lambda e: json.dumps(e, sort_keys=True)
+        if own is None or own["client"] != cid or own["operation"] != f"task{cid}" or sorted(map(key, mine)) != sorted(map(key, exp_sub)):
+            ctx.fail(CLS_STORED, f"stored: the service_time documents of sample {idx} (client {cid}) are not its own followed by one per executed sub-request "
+                     f"with that sub-request's own name, type and timing", [f"task{cid}", exp_sub], [own, mine])
+            bad = True
+            break
+    if not bad and pos != len(got):
+        ctx.fail(CLS_STORED, f"stored: {len(got)} service_time documents stored, {pos} expected (down-sampling factor {factor})", pos, len(got))
+    ctx.count(f"stored:factor={factor}")
+    ctx.count(f"stored:sub-documents={min(nsub, 6)}")
+    ctx.sig([m.get("tags"), min(len(samples), 4), min(nsub, 4), ts != 0, bad], nontrivial=nsub > 0)
+
+
 STREAMS = [
     Stream("direct", gen_direct, run_direct, quick=8000, thorough=200000, shards=16),
     Stream("direct_exhaustive", gen_direct_exhaustive, run_direct, quick=1600, thorough=1, shards=16, exhaustive_thorough=True),
@@ -2177,4 +2326,5 @@ STREAMS = [
     Stream("composite", gen_composite, run_clients, quick=4800, thorough=80000, shards=16),
     Stream("clients", gen_clients, run_clients, quick=1600, thorough=24000, shards=16),
     Stream("real_client", gen_real, run_real, quick=480, thorough=8000, shards=16),
+    Stream("stored_timings", gen_stored, run_stored, quick=800, thorough=16000, shards=16),
 ]
